@@ -12,8 +12,11 @@ What is mirrored (code as it is now)
     `mov %rax, %r8`; load(*old) [floating: `mov (%rax), %eax|%rax`];
     `pop %rdx`; `pop %rdi`; `lock cmpxchg reg_dx(sz), (%rdi)`; `sete %cl`; `je 1f`;
     `mov reg_ax(sz), (%r8)`; `1:`; `movzbl %cl, %eax`
-* codegen.c `ND_EXCH`:  gen(addr); push; gen(val); `pop %rdi`; `xchg reg_ax(sz), (%rdi)`; for 1- and 2-byte
+* codegen.c `ND_EXCH`:  gen(addr); push; gen(val); `pop %rdi`; [`movd %xmm0, %eax` | `movq %xmm0, %rax`];
+    `xchg reg_ax(sz), (%rdi)`; [`movd %eax, %xmm0` | `movq %rax, %xmm0`]; for 1- and 2-byte
     objects `movsbl/movzbl %al, %eax` / `movswl/movzwl %ax, %eax`
+* type.c `add_type`: the value argument of ND_CAS / ND_EXCH is converted to the object type (a private
+    conversion before the push; the model takes the register value after it)
 * codegen.c `ND_NOT` and the `ND_DO` test: `cmp $0, %eax`; `sete %al`; `movzx %al, %rax`; `cmp $0, %eax`; `jne .L.begin.N`
 * codegen.c `load`/`store` (register extension by size and signedness), `reg_ax`/`reg_dx` (register by `sizeof *addr`)
 * include/stdatomic.h: `atomic_load` = `*addr` (one load), `atomic_store` = `*addr = val` (one store)
@@ -106,8 +109,8 @@ inductive Oper (w : Width) where
       `A++`, `A--`): yields the new value.  `retOld = true`: `atomic_fetch_*`: yields the previous value.
       `f old = (T)(old op val)`; `none` = the division instruction raises #DE (divisor 0, or INT_MIN / -1). -/
   | rmw (f : Word w → Option (Word w)) (retOld : Bool)
-  /-- one `atomic_compare_exchange_strong/weak(p, &e, d)`; `d` is the raw register value of the
-      third argument (it is not converted to the object type: only its low `w` bits are used) -/
+  /-- one `atomic_compare_exchange_strong/weak(p, &e, d)`; `d` is the register value of the third argument
+      after its conversion to the object type (whatever the upper bits are, only the low `w` bits are used) -/
   | cas (expected : Word w) (desired : BitVec 64)
   /-- `atomic_exchange(p, v)`; `v` raw register value of the second argument -/
   | xchg (v : BitVec 64)
@@ -151,8 +154,10 @@ inductive Pc where
   | result    -- `new;` / `__old;` value of the statement expression
   -- ND_EXCH
   | xload     -- gen(rhs)
-  | xchg      -- pop %rdi; xchg reg_ax, (%rdi)
-  | xext      -- movsbl/movzbl %al, %eax; movswl/movzwl %ax, %eax   (1- and 2-byte objects only)
+  | xpre      -- movd %xmm0, %eax | movq %xmm0, %rax                  (floating objects only)
+  | xchg      -- xchg reg_ax, (%rdi)
+  | xext      -- movsbl/movzbl %al, %eax | movswl/movzwl %ax, %eax   (1- and 2-byte objects)
+              -- movd %eax, %xmm0 | movq %rax, %xmm0                  (floating objects)
   -- atomic_load
   | aload
   -- atomic_store
@@ -229,10 +234,12 @@ def bit8 (b : Bool) : BitVec 8 := if b then 1#8 else 0#8
 def lockCmpxchg (w : Width) (c : Word w) (rax rdx : BitVec 64) : Word w × BitVec 64 × Bool :=
   if c = readReg w rax then (readReg w rdx, rax, true) else (c, writeReg w rax c, false)
 
-/-- does ND_EXCH emit an extension after the `xchg`? -/
 def Width.narrow : Width → Bool
   | .w8 | .w16 => true
   | _ => false
+
+/-- does ND_EXCH emit an instruction after the `xchg`? (extension of a 1- or 2-byte value, move back to %xmm0) -/
+def xchgHasPost (w : Width) (k : Kind) : Bool := w.narrow || k == .flo
 
 /-- one instruction of a thread whose object currently holds `c`; `k` = kind of the object type -/
 def stepThread {w : Width} (k : Kind) (c : Word w) (th : Thread w) : StepOut w :=
@@ -283,10 +290,11 @@ def stepThread {w : Width} (k : Kind) (c : Word w) (th : Thread w) : StepOut w :
       let v := if ro then th.old else th.new
       ⟨finish { th with rax := loadExt w k v } (.val v), c, none⟩
     -- ND_EXCH
-    | .xload, .xchg v => ⟨{ th with pc := .xchg, rax := v }, c, none⟩
+    | .xload, .xchg v => ⟨{ th with pc := if k == .flo then .xpre else .xchg, rax := v }, c, none⟩
+    | .xpre, .xchg _ => ⟨{ th with pc := .xchg, rax := loadExt w .flo (readReg w th.rax) }, c, none⟩
     | .xchg, .xchg v =>
       let rax' := writeReg w th.rax c
-      if w.narrow then
+      if xchgHasPost w k then
         ⟨{ th with pc := .xext, rax := rax' }, readReg w th.rax, some (.commit (.xchg v) (.val c))⟩
       else
         ⟨finish { th with rax := rax' } (.val (readReg w rax')), readReg w th.rax,
@@ -568,11 +576,13 @@ def casArmLines (w : Width) (k : Kind) : List Line :=
 
 /-- ND_EXCH from `pop %rdi` on -/
 def xchgLines (w : Width) (k : Kind) : List Line :=
-  [pop "%rdi", ins2 "xchg" (.r (regAx w)) (.m0 "%rdi")] ++
-  (match w with
-   | .w8 => [ins2 (if k = .unsigned then "movzbl" else "movsbl") (.r "%al") (.r "%eax")]
-   | .w16 => [ins2 (if k = .unsigned then "movzwl" else "movswl") (.r "%ax") (.r "%eax")]
-   | _ => [])
+  [pop "%rdi"] ++ flonumToRax w k ++ [ins2 "xchg" (.r (regAx w)) (.m0 "%rdi")] ++
+  (match w, k with
+   | .w32, .flo => [ins2 "movd" (.r "%eax") (.r "%xmm0")]
+   | .w64, .flo => [ins2 "movq" (.r "%rax") (.r "%xmm0")]
+   | .w8, k => [ins2 (if k = .signed then "movsbl" else "movzbl") (.r "%al") (.r "%eax")]
+   | .w16, k => [ins2 (if k = .signed then "movswl" else "movzwl") (.r "%ax") (.r "%eax")]
+   | _, _ => [])
 
 def aloadLines (w : Width) (k : Kind) : List Line := [loadLine w k]
 
